@@ -18,32 +18,74 @@ use std::time::Duration;
 pub use shuttle::sync::{RwLock, RwLockReadGuard, RwLockWriteGuard};
 pub use std::sync::Arc;
 
-pub struct Mutex<T: ?Sized>(shuttle::sync::Mutex<T>);
+/// Poisoning is tracked here, per simulated task: the std mutex inside shuttle's `Mutex` asks
+/// `std::thread::panicking()`, which is a property of the OS thread all tasks share, and would
+/// poison every mutex released by *any* task while a crashed task's unwind is in flight.
+pub struct Mutex<T: ?Sized> {
+    poisoned: Cell<bool>,
+    inner: shuttle::sync::Mutex<T>,
+}
+// Safety: simulated threads are coroutines on one OS thread.
+unsafe impl<T: ?Sized + Send> Sync for Mutex<T> {}
 pub struct MutexGuard<'a, T: ?Sized> {
     inner: Option<shuttle::sync::MutexGuard<'a, T>>,
     mutex: &'a Mutex<T>,
+    panicking_at_lock: bool,
 }
 impl<T> Mutex<T> {
     pub fn new(t: T) -> Self {
-        Mutex(shuttle::sync::Mutex::new(t))
+        Mutex { poisoned: Cell::new(false), inner: shuttle::sync::Mutex::new(t) }
     }
     pub fn into_inner(self) -> LockResult<T> {
-        self.0.into_inner()
+        let poisoned = self.poisoned.get();
+        let v = match self.inner.into_inner() {
+            Ok(v) => v,
+            Err(e) => e.into_inner(),
+        };
+        if poisoned {
+            Err(PoisonError::new(v))
+        } else {
+            Ok(v)
+        }
     }
 }
 impl<T: ?Sized> Mutex<T> {
     pub fn lock(&self) -> LockResult<MutexGuard<'_, T>> {
         crate::check_abort();
-        match self.0.lock() {
-            Ok(g) => Ok(MutexGuard { inner: Some(g), mutex: self }),
-            Err(e) => Err(PoisonError::new(MutexGuard {
-                inner: Some(e.into_inner()),
-                mutex: self,
-            })),
+        let g = match self.inner.lock() {
+            Ok(g) => g,
+            Err(e) => e.into_inner(),
+        };
+        let guard = MutexGuard { inner: Some(g), mutex: self, panicking_at_lock: crate::thread::panicking() };
+        if self.poisoned.get() {
+            Err(PoisonError::new(guard))
+        } else {
+            Ok(guard)
         }
     }
+    pub fn is_poisoned(&self) -> bool {
+        self.poisoned.get()
+    }
     pub fn get_mut(&mut self) -> LockResult<&mut T> {
-        self.0.get_mut()
+        let poisoned = self.poisoned.get();
+        let v = match self.inner.get_mut() {
+            Ok(v) => v,
+            Err(e) => e.into_inner(),
+        };
+        if poisoned {
+            Err(PoisonError::new(v))
+        } else {
+            Ok(v)
+        }
+    }
+}
+impl<T: ?Sized> Drop for MutexGuard<'_, T> {
+    fn drop(&mut self) {
+        // as std: a guard dropped by an unwinding thread that was not unwinding when it locked
+        if !self.panicking_at_lock && crate::thread::panicking() {
+            self.mutex.poisoned.set(true);
+            crate::probe("mutex_poisoned");
+        }
     }
 }
 impl<T: Default> Default for Mutex<T> {
@@ -53,7 +95,7 @@ impl<T: Default> Default for Mutex<T> {
 }
 impl<T: ?Sized + std::fmt::Debug> std::fmt::Debug for Mutex<T> {
     fn fmt(&self, f: &mut std::fmt::Formatter<'_>) -> std::fmt::Result {
-        self.0.fmt(f)
+        self.inner.fmt(f)
     }
 }
 impl<T: ?Sized> std::ops::Deref for MutexGuard<'_, T> {
@@ -111,6 +153,7 @@ impl Condvar {
         if crate::fault(Fault::SpuriousWakeup) {
             // Legal for std: return without notification and without time-out.
             drop(guard.inner.take());
+            guard.panicking_at_lock = true; // the empty shell must not take part in poisoning
             let g = match mutex.lock() {
                 Ok(g) => g,
                 Err(e) => e.into_inner(),
@@ -135,6 +178,7 @@ impl Condvar {
         });
         // Releasing the mutex is a scheduling point; we are already registered.
         drop(guard.inner.take());
+        guard.panicking_at_lock = true; // the empty shell must not take part in poisoning
         while w.st.get() == W::Waiting {
             block_me();
         }
